@@ -267,7 +267,7 @@ pub fn run_c03(tier: Tier) -> i32 {
     ctx.assume("well-formed server output is what mpdref::wire::Wire::encode produces for the bounded grammar (fields over 3 keys x 12 values, 8 binary payloads, 144 errors, single/list/error forms, sequences of responses)");
     ctx.assume("expected values are computed from the abstract response, independently of the parser; encoder and reference decoder of mpdref are cross-checked on every stream");
     let items = c03_items(tier);
-    let (all_upto, two_upto, three_upto) = tier.pick((12, 72, 0), (16, 120, 40));
+    let (all_upto, two_upto, three_upto) = tier.pick((12, 72, 0), (17, 140, 48));
     let acc = items
         .par_iter()
         .map(|(ws, pos)| {
@@ -449,7 +449,7 @@ pub fn run_c02(tier: Tier) -> i32 {
     let thorough = tier == Tier::Thorough;
     // well-formed streams
     let mut streams: Vec<Vec<u8>> = Vec::new();
-    for (ws, pos) in c03_items(Tier::Quick).iter().step_by(tier.pick(5, 2)) {
+    for (ws, pos) in c03_items(Tier::Quick).iter().step_by(tier.pick(5, 3)) {
         streams.push(encode_items(ws, *pos).0);
     }
     let wf = streams.len();
@@ -463,7 +463,7 @@ pub fn run_c02(tier: Tier) -> i32 {
         streams.extend(corruptions(s, subs));
     }
     let (all_upto, two_upto, three_upto) = tier.pick((12, 48, 0), (15, 64, 30));
-    let pend: Vec<u64> = if thorough { vec![0b1, 0b10, 0b11, 0b101, 0b1000] } else { vec![0b1, 0b10] };
+    let pend: Vec<u64> = if thorough { vec![0b1, 0b10, 0b101, 0b1000] } else { vec![0b1, 0b10] };
     let acc = streams
         .par_iter()
         .map(|s| {
@@ -488,8 +488,8 @@ pub fn run_c02(tier: Tier) -> i32 {
             let (s, bounds) = encode_items(ws, BinPos::Last);
             // (the exact-buffer-size streams are about reads that fill the buffer to its last byte:
             // fill-the-buffer reads, chunk sizes and cuts around boundaries and doublings, not every cut)
-            let sets = if name.contains("exactly") && !thorough { multi_segsets(&s, &bounds) } else { long_segsets(&s, thorough) };
-            c02_check_stream(&s, &sets, &[0b1, 0b100], &mut acc);
+            let sets = if name.contains("exactly") { multi_segsets(&s, &bounds) } else { long_segsets(&s, thorough) };
+            c02_check_stream(&s, &sets, if thorough { &[0b1] } else { &[0b1, 0b100] }, &mut acc);
             acc.nontrivial += 1;
             acc.samples.push(json!({"long_stream": name, "bytes": s.len(), "segmentations": sets.len()}));
             acc
@@ -988,7 +988,7 @@ pub fn run_c09(tier: Tier) -> i32 {
 pub fn c18_greetings(tier: Tier) -> Vec<Vec<u8>> {
     let mut out: Vec<Vec<u8>> = Vec::new();
     let syms: &[&[u8]] = &[b"0", b".", b"a", b" ", "\u{e9}".as_bytes(), b"\xff", b"\r"];
-    let maxlen = tier.pick(3, 4);
+    let maxlen = tier.pick(3, 5);
     let mut layer: Vec<Vec<u8>> = vec![vec![]];
     let mut versions: Vec<Vec<u8>> = vec![vec![]];
     for _ in 0..maxlen {
